@@ -296,7 +296,7 @@ func RunFaultCase(rt *rapid.T, env *Env, prop *SimProp, faults func(w *World) []
 			if base[k].K == "tokreset" {
 				// the fan-out of a token reset over the connections is short: repeat it
 				// so that the disposal has something to overlap with
-				for r := 0; r < 30; r++ {
+				for r := 0; r < 120; r++ {
 					par = append(par, base[k])
 				}
 			}
